@@ -330,9 +330,12 @@ def r11_4(ctx):
                            "(argument kinds: numeric string, bytes, None, list, pair where a number is required, wrong "
                            "arity, one-shot iterables)", floor=6)
     NAMES = ("move", "scale", "rotate")
-    BAD = {"scale": [(2, "3"), ("2", 3), (2, None), (None, 2), (2, b"3"), (2, [1]), ((1, 2), 3), (Fr(1, 2), "x")],
-           "rotate": [("30",), (None,), ("30", True), ([1],), (b"1",)],
-           "move": [("12",), (1, "2"), (("1", 2),), (None,), (1, 2, 3), ((1, None),),
+    from decimal import Decimal
+    # a Decimal passes the float() validation but does not mix with Fraction / float coordinates
+    BAD = {"scale": [(2, "3"), ("2", 3), (2, None), (None, 2), (2, b"3"), (2, [1]), ((1, 2), 3), (Fr(1, 2), "x"),
+                     (2, Decimal("3")), (Decimal("2"), 3)],
+           "rotate": [("30",), (None,), ("30", True), ([1],), (b"1",), (Decimal("1"),)],
+           "move": [("12",), (1, "2"), (("1", 2),), (None,), (1, 2, 3), ((1, None),), (1, Decimal("2")), ((Decimal("1"), 2),),
                     # one-shot iterables: consumed by the first reader (accepted as a whole, or rejected as a whole)
                     lambda: (iter([3, 5]),), lambda: (map(int, ("3", "5")),), lambda: ((v for v in (3, 5)),),
                     lambda: (iter([3]),), lambda: (iter([3, "x"]),)]}
